@@ -9,8 +9,7 @@ from kvstatic.astutil import (find_all, attr_chain, is_name, call_name, body_no_
                               walk_no_nested_funcs)
 
 
-def cz(x):
-    return norm(x).replace(' ', '').replace('\n', '')
+from kvstatic.paths import cz  # noqa: E402
 
 
 def run(rep: Report, repo: Repo):
